@@ -9,6 +9,7 @@
                          SIGXFSZ for the calling thread.
    VERIF_IO_SIG=<op>:<k>:<signo>[:after]
                          signal signo is sent to the process right before (or after) the k-th call of op.
+   VERIF_IO_MARK=<file>  created when the VERIF_IO_FAIL / VERIF_IO_SIG injection point is reached.
    ops: read write close fchown fchmod futimens unlink open.  Counting is global over all threads
    ("the k-th call of the run").  read/write are counted for every fd except 2 (stderr) and the
    shim's own log. */
@@ -90,6 +91,19 @@ static void init(void)
   }
 }
 
+static void mark(void)
+{
+  const char *m = getenv("VERIF_IO_MARK");
+  if (m && *m) { int fd = real_open(m, O_WRONLY | O_CREAT | O_CLOEXEC, 0666); if (fd >= 0) real_close(fd); }
+}
+
+/* the signal of an ":after" injection: marked when it is really sent (the process may have ended meanwhile) */
+static void after_signal(void)
+{
+  mark();
+  kill(getpid(), sig_no);
+}
+
 /* returns: bit 0 = fail this call, bit 1 = signal before, bit 2 = signal after */
 static int enter(int op, int fd, const char *path)
 {
@@ -104,6 +118,7 @@ static int enter(int op, int fd, const char *path)
   }
   if (op == fail_op && count[op] == fail_k) r |= 1;
   if (op == sig_op && count[op] == sig_k) r |= sig_after ? 4 : 2;
+  if (r & 3) mark();
   pthread_mutex_unlock(&mu);
   if (r & 2) kill(getpid(), sig_no);
   return r;
@@ -137,7 +152,7 @@ ssize_t read(int fd, void *buf, size_t n)
   r = enter(O_READ, fd, NULL);
   if (r & 1) { errno = fail_errno; return -1; }
   rv = real_read(fd, buf, (fd == 0 && seed >= 0) ? part(n, 0) : n);
-  if (r & 4) kill(getpid(), sig_no);
+  if (r & 4) after_signal();
   return rv;
 }
 
@@ -163,7 +178,7 @@ ssize_t write(int fd, const void *buf, size_t n)
     return -1;
   }
   rv = real_write(fd, buf, (fd == 1 && seed >= 0) ? part(n, 1) : n);
-  if (r & 4) kill(getpid(), sig_no);
+  if (r & 4) after_signal();
   return rv;
 }
 
@@ -175,7 +190,7 @@ int close(int fd)
   r = enter(O_CLOSE, fd, NULL);
   if (r & 1) { (void)real_close(fd); errno = fail_errno; return -1; }   /* like a deferred write error: the descriptor is gone */
   rv = real_close(fd);
-  if (r & 4) kill(getpid(), sig_no);
+  if (r & 4) after_signal();
   return rv;
 }
 
@@ -184,7 +199,7 @@ int fchown(int fd, uid_t u, gid_t g)
   int r = enter(O_FCHOWN, fd, NULL), rv;
   if (r & 1) { errno = fail_errno; return -1; }
   rv = real_fchown(fd, u, g);
-  if (r & 4) kill(getpid(), sig_no);
+  if (r & 4) after_signal();
   return rv;
 }
 
@@ -193,7 +208,7 @@ int fchmod(int fd, mode_t m)
   int r = enter(O_FCHMOD, fd, NULL), rv;
   if (r & 1) { errno = fail_errno; return -1; }
   rv = real_fchmod(fd, m);
-  if (r & 4) kill(getpid(), sig_no);
+  if (r & 4) after_signal();
   return rv;
 }
 
@@ -202,7 +217,7 @@ int futimens(int fd, const struct timespec ts[2])
   int r = enter(O_FUTIMENS, fd, NULL), rv;
   if (r & 1) { errno = fail_errno; return -1; }
   rv = real_futimens(fd, ts);
-  if (r & 4) kill(getpid(), sig_no);
+  if (r & 4) after_signal();
   return rv;
 }
 
@@ -211,7 +226,7 @@ int unlink(const char *path)
   int r = enter(O_UNLINK, -1, path), rv;
   if (r & 1) { errno = fail_errno; return -1; }
   rv = real_unlink(path);
-  if (r & 4) kill(getpid(), sig_no);
+  if (r & 4) after_signal();
   return rv;
 }
 
@@ -225,7 +240,7 @@ int open(const char *path, int flags, ...)
   r = enter(O_OPEN, -1, path);
   if (r & 1) { errno = fail_errno; return -1; }
   rv = real_open(path, flags, mode);
-  if (r & 4) kill(getpid(), sig_no);
+  if (r & 4) after_signal();
   return rv;
 }
 int open64(const char *path, int flags, ...)
